@@ -35,12 +35,24 @@ def unesc_ref(s):
     return "".join(out)
 
 
-def build(shape):
+def build(shape, eq=False):
     from anytree import Node
+
+    class EqNode(Node):
+        """all nodes compare equal and hash alike: identifiers and edges must still go by identity (statement: distinct per node)"""
+        def __eq__(self, other):
+            return True
+
+        def __ne__(self, other):
+            return False
+
+        def __hash__(self):
+            return 7
+    cls = EqNode if eq else Node
     nodes = []
 
     def rec(sh, parent):
-        n = Node(NAMES[len(nodes) % len(NAMES)], parent=parent)
+        n = cls(NAMES[len(nodes) % len(NAMES)], parent=parent)
         nodes.append(n)
         for c in sh:
             rec(c, n)
@@ -224,7 +236,7 @@ def run_case(c, known=()):
 
     def tup(x):
         return tuple(tup(y) for y in x)
-    nodes = build(tup(c["shape"]))
+    nodes = build(tup(c["shape"]), c.get("eq", False))
     start = nodes[c.get("start", 0)]
     args = (nodes, start, set(c["stop"]), set(c["filt"]), c["maxlevel"])
     if c["exporter"] == "Mermaid":
@@ -255,18 +267,19 @@ def search(spec):
                                 for custom in (False, True):
                                     if exp == "Legacy" and (custom or stop or filt):
                                         continue
-                                    case = {"property": prop, "exporter": exp, "shape": sh, "start": start, "stop": list(stop),
-                                            "filt": list(filt), "maxlevel": maxlevel, "custom": custom}
-                                    total += 1
-                                    try:
-                                        bad = run_case(case, known)
-                                    except Exception as e:      # noqa
-                                        bad = "raised %s: %s" % (type(e).__name__, e)
-                                    if bad == "KF5":
-                                        seen_kf = seen_kf or case
-                                        continue
-                                    if bad:
-                                        return {"found": True, "case": case, "result": bad, "evaluations": total}
+                                    for eq in ((False, True) if not stop and not filt and exp != "Legacy" else (False,)):
+                                        case = {"property": prop, "exporter": exp, "shape": sh, "start": start, "stop": list(stop),
+                                                "filt": list(filt), "maxlevel": maxlevel, "custom": custom, "eq": eq}
+                                        total += 1
+                                        try:
+                                            bad = run_case(case, known)
+                                        except Exception as e:      # noqa
+                                            bad = "raised %s: %s" % (type(e).__name__, e)
+                                        if bad == "KF5":
+                                            seen_kf = seen_kf or case
+                                            continue
+                                        if bad:
+                                            return {"found": True, "case": case, "result": bad, "evaluations": total}
     return {"found": False, "evaluations": total, "nontrivial": total, "known_seen": {"KF5": seen_kf} if seen_kf else {}}
 
 
